@@ -337,11 +337,15 @@ func (h *H) faultyTx(kind string, set map[ctypes.OutPoint]uinfo, spent map[ctype
 			val += good.u.val
 		}
 		return mk(ins, val)
-	case "dupin": // the same input twice in one transaction
+	case "dupin", "dupinseq": // the same outpoint twice in one transaction (second one possibly with another Sequence)
 		if good == nil {
 			return nil
 		}
-		return mk([]fixture.In{{Op: good.op, Key: good.u.addr}, {Op: good.op, Key: good.u.addr}}, 2*good.u.val)
+		seq := uint32(0)
+		if kind == "dupinseq" {
+			seq = uint32(1 + h.Rng.Intn(3))
+		}
+		return mk([]fixture.In{{Op: good.op, Key: good.u.addr}, {Op: good.op, Key: good.u.addr, Seq: seq}}, 2*good.u.val)
 	case "unknown": // never created
 		var id common.Uint256
 		copy(id[:], h.Rng.Bytes(32))
@@ -753,7 +757,7 @@ func (h *H) Random(steps int) {
 				cur = nb
 			}
 		case r < 82: // an invalid block at the tip
-			kinds := []string{"spent", "dupin", "unknown", "oor", "immature", "dupblock", "dupcoinbase", "sameblock", "duptx"}
+			kinds := []string{"spent", "dupin", "dupinseq", "unknown", "oor", "immature", "dupblock", "dupblockseq", "dupblockseq", "dupcoinbase", "sameblock", "duptx"}
 			if nb := h.faultyBlock(tip, kinds[h.Rng.Intn(len(kinds))]); nb != nil {
 				h.Process(nb)
 			}
@@ -764,7 +768,9 @@ func (h *H) Random(steps int) {
 			}
 			set, spent, _ := h.view(tip)
 			used := map[ctypes.OutPoint]bool{}
-			switch h.Rng.Intn(4) {
+			switch h.Rng.Intn(6) {
+			case 4, 5: // collisions between transaction types on one outpoint
+				h.TypedCollision(tip)
 			case 0, 1:
 				if tx := h.genTx(set, used, tip.height); tx != nil {
 					h.Submit(tx, "valid")
@@ -809,7 +815,7 @@ func (h *H) faultyBlock(parent *hblk, kind string) *hblk {
 		}
 	}
 	switch kind {
-	case "dupblock": // two transactions of the block spend the same outpoint
+	case "dupblock", "dupblockseq": // two transactions of the block spend the same outpoint (second one possibly with another Sequence)
 		a := h.genTx(set, used, parent.height)
 		if a == nil {
 			return nil
@@ -817,8 +823,38 @@ func (h *H) faultyBlock(parent *hblk, kind string) *hblk {
 		in := a.Inputs()[h.Rng.Intn(len(a.Inputs()))].Previous
 		u := set[in]
 		h.tag++
-		b, _ := h.F.Transfer([]fixture.In{{Op: in, Key: u.addr}}, []fixture.Out{{Key: h.Rng.Intn(4), Value: u.val - 300}}, uint64(h.ID)<<32|h.tag)
-		txs = append(txs, a, b)
+		seq := uint32(0)
+		if kind == "dupblockseq" {
+			seq = []uint32{1, 2, 0xfffffffe, 0xffffffff}[h.Rng.Intn(4)]
+		}
+		ins := []fixture.In{{Op: in, Key: u.addr, Seq: seq}}
+		val := u.val
+		if h.Rng.Chance(40) { // the clashing input is not the only / first one
+			for _, c := range sortedCands(set) {
+				if !used[c.op] && c.u.val >= 2000 && !(c.u.cb && parent.height-c.u.lock < h.F.Params.PowConfiguration.CoinbaseMaturity) {
+					used[c.op] = true
+					extra := fixture.In{Op: c.op, Key: c.u.addr}
+					if h.Rng.Bool() {
+						ins = append([]fixture.In{extra}, ins...)
+					} else {
+						ins = append(ins, extra)
+					}
+					val += c.u.val
+					break
+				}
+			}
+		}
+		b, _ := h.F.Transfer(ins, []fixture.Out{{Key: h.Rng.Intn(4), Value: val - 300}}, uint64(h.ID)<<32|h.tag)
+		if h.Rng.Bool() {
+			txs = append(txs, a, b)
+		} else {
+			txs = append(txs, b, a)
+		}
+		if h.Rng.Chance(30) { // and something valid after them
+			if c := h.genTx(set, used, parent.height); c != nil {
+				txs = append(txs, c)
+			}
+		}
 	case "sameblock": // spends an output created in the same block
 		a := h.genTx(set, used, parent.height)
 		if a == nil {
